@@ -112,12 +112,12 @@ theorem mikeyToContext_sound (m : Message) (now : Int) (c : Ctx) (h : mikeyToCon
               rw [initCtx_30 _ _ _ _ hlen] at h
               simp only [Except.ok.injEq] at h
               refine ⟨kd, ⟨⟨a, ts, hT, by omega, by omega⟩, ⟨ps, hSP, ?_, ?_, ?_, ?_, ?_, ?_⟩, hK, hlen⟩, h.symm⟩
-              · simpa [Sec.reqEncrAlg] using (policyBad_false_iff ps _ _).1 (by simpa using p1)
-              · simpa [Sec.reqSessionEncrKeyLen] using (policyBad_false_iff ps _ _).1 (by simpa using p2)
-              · simpa [Sec.reqAuthAlg] using (policyBad_false_iff ps _ _).1 (by simpa using p3)
-              · simpa [Sec.reqSRTPEncrOffOn] using (policyBad_false_iff ps _ _).1 (by simpa using p4)
-              · simpa [Sec.reqSRTCPEncrOffOn] using (policyBad_false_iff ps _ _).1 (by simpa using p5)
-              · simpa [Sec.reqSRTPAuthOffOn] using (policyBad_false_iff ps _ _).1 (by simpa using p6)
+              · simpa [Sec.reqEncrAlg] using (policyBad_false_iff ps Sec.ppEncrAlg Sec.reqEncrAlg).1 (by simpa using p1)
+              · simpa [Sec.reqSessionEncrKeyLen] using (policyBad_false_iff ps Sec.ppSessionEncrKeyLen Sec.reqSessionEncrKeyLen).1 (by simpa using p2)
+              · simpa [Sec.reqAuthAlg] using (policyBad_false_iff ps Sec.ppAuthAlg Sec.reqAuthAlg).1 (by simpa using p3)
+              · simpa [Sec.reqSRTPEncrOffOn] using (policyBad_false_iff ps Sec.ppSRTPEncrOffOn Sec.reqSRTPEncrOffOn).1 (by simpa using p4)
+              · simpa [Sec.reqSRTCPEncrOffOn] using (policyBad_false_iff ps Sec.ppSRTCPEncrOffOn Sec.reqSRTCPEncrOffOn).1 (by simpa using p5)
+              · simpa [Sec.reqSRTPAuthOffOn] using (policyBad_false_iff ps Sec.ppSRTPAuthOffOn Sec.reqSRTPAuthOffOn).1 (by simpa using p6)
           · cases h
 
 /-- completeness: everything inside the policy is accepted -/
